@@ -25,36 +25,36 @@ import (
 type intrinsic func(ex *Exec, fr *frame, args []Value) Value
 
 type Engine struct {
-	prog     *ssa.Program
-	pkgs     []*packages.Package
-	fset     *token.FileSet
-	intr     map[string]intrinsic
+	prog      *ssa.Program
+	pkgs      []*packages.Package
+	fset      *token.FileSet
+	intr      map[string]intrinsic
 	intrCache sync.Map // *ssa.Function -> intrinsic (or nil marker)
-	buildMu  sync.Mutex
+	buildMu   sync.Mutex
 
-	initMu    sync.Mutex
-	pristine  map[*ssa.Global]*Value
-	pkgInit   map[*ssa.Package]string // "" = ok, else reason it is poisoned; absent = not run
-	errType   types.Type
+	initMu   sync.Mutex
+	pristine map[*ssa.Global]*Value
+	pkgInit  map[*ssa.Package]string // "" = ok, else reason it is poisoned; absent = not run
+	errType  types.Type
 
-	knownActive map[string]bool
-	skipGo      map[string]bool
-	solverBin   string
-	solverArgs  []string
-	workers     int
-	maxSteps    int64
-	maxDecisions int
-	maxPaths    int64
-	teeDir      string
-	teeMax      int64
-	teeN        atomic.Int64
-	verbose     bool
-	srcHashMu   sync.Mutex
-	srcHash     map[string]string
-	overlaySrc  map[string][]byte
+	knownActive   map[string]bool
+	skipGo        map[string]bool
+	solverBin     string
+	solverArgs    []string
+	workers       int
+	maxSteps      int64
+	maxDecisions  int
+	maxPaths      int64
+	teeDir        string
+	teeMax        int64
+	teeN          atomic.Int64
+	verbose       bool
+	srcHashMu     sync.Mutex
+	srcHash       map[string]string
+	overlaySrc    map[string][]byte
 	validateEvery int64
-	prefixIntr  []prefixIntrinsic
-	params      map[string]int64
+	prefixIntr    []prefixIntrinsic
+	params        map[string]int64
 }
 
 type LoadConfig struct {
@@ -112,12 +112,12 @@ func LoadProgram(cfg LoadConfig) (*Engine, error) {
 	}
 	e := &Engine{
 		prog: prog, pkgs: pkgs, fset: prog.Fset,
-		intr:     map[string]intrinsic{},
-		pristine: map[*ssa.Global]*Value{},
-		pkgInit:  map[*ssa.Package]string{},
+		intr:        map[string]intrinsic{},
+		pristine:    map[*ssa.Global]*Value{},
+		pkgInit:     map[*ssa.Package]string{},
 		knownActive: map[string]bool{},
-		skipGo:   map[string]bool{},
-		solverBin: "z3", solverArgs: []string{"-in", "-smt2"},
+		skipGo:      map[string]bool{},
+		solverBin:   "z3", solverArgs: []string{"-in", "-smt2"},
 		workers: 16, maxSteps: 20_000_000, maxDecisions: 4000, maxPaths: 5_000_000,
 		srcHash: map[string]string{},
 	}
@@ -375,31 +375,34 @@ func (ex *Exec) deepCopy(v Value) Value {
 // ---- exploration ----
 
 type HarnessReport struct {
-	Harness      string
-	Paths        int64
-	Completed    int64
-	Infeasible   int64
-	Decisions    int64
-	Obligations  int64
-	Discharged   int64
-	Violations   []Violation
-	Inconclusive []string
-	Unsupported  []string
-	BudgetFails  []string
-	Reached      map[string]int
-	Labels       []string // assertion labels found statically in the harness
-	Samples      []map[string]any
-	ValidationModels []map[string]any // models of passing paths for native validation
-	Funcs        map[string]string // function -> source hash
-	MaxSteps     int64
-	Steps        int64
-	NMulSym      int64
-	Wall         float64
-	Panics       int64
-	Truncated    bool
+	Harness          string
+	Paths            int64
+	Completed        int64
+	Infeasible       int64
+	Decisions        int64
+	Obligations      int64
+	Discharged       int64
+	Violations       []Violation
+	Inconclusive     []string
+	Unsupported      []string
+	BudgetFails      []string
+	Reached          map[string]int
+	Labels           []string // assertion labels found statically in the harness
+	Samples          []map[string]any
+	ValidationModels []map[string]any  // models of passing paths for native validation
+	Funcs            map[string]string // function -> source hash
+	MaxSteps         int64
+	Steps            int64
+	NMulSym          int64
+	Wall             float64
+	Panics           int64
+	Truncated        bool
 }
 
-type workItem struct{ prefix []int32 }
+type workItem struct {
+	prefix []int32
+	vals   []uint64
+}
 
 func (e *Engine) Explore(h *ssa.Function, seed int64, nValidate int) *HarnessReport {
 	rep := &HarnessReport{Harness: h.String(), Reached: map[string]int{}, Funcs: map[string]string{}}
@@ -454,7 +457,7 @@ func (e *Engine) Explore(h *ssa.Function, seed int64, nValidate int) *HarnessRep
 			} else {
 				// sample every k-th path, and every path while too few usable samples exist
 				want := nValidate > 0 && int(nSamples.Load()) < nValidate && ((n%int64(max64(1, e.validateEvery))) == 0 || n <= 200)
-				res = e.runPath(sess, h, it.prefix, want)
+				res = e.runPathVals(sess, h, it.prefix, it.vals, want)
 				if sess.cmd == nil || res.Aborted != nil && res.Aborted.kind == abSolver {
 					// restart a dead solver
 					sess.Close()
@@ -466,7 +469,7 @@ func (e *Engine) Explore(h *ssa.Function, seed int64, nValidate int) *HarnessRep
 
 			mu.Lock()
 			for _, f := range res.Forks {
-				stack = append(stack, workItem{f})
+				stack = append(stack, workItem{f.dec, f.vals})
 			}
 			rep.Paths++
 			rep.Decisions += int64(len(res.Decisions))
@@ -565,8 +568,13 @@ func (e *Engine) ReplayConcrete(h *ssa.Function, inputs map[string]uint64) (*Pat
 }
 
 func (e *Engine) runPath(sess *Session, h *ssa.Function, prefix []int32, wantSample bool, replay ...map[string]uint64) (res *PathResult) {
+	return e.runPathVals(sess, h, prefix, nil, wantSample, replay...)
+}
+
+func (e *Engine) runPathVals(sess *Session, h *ssa.Function, prefix []int32, vals []uint64, wantSample bool, replay ...map[string]uint64) (res *PathResult) {
 	ex := &Exec{
-		eng: e, ts: NewTermStore(), sess: sess, prefix: prefix,
+		prefixVals: vals,
+		eng:        e, ts: NewTermStore(), sess: sess, prefix: prefix,
 		occ: map[string]int{}, choices: map[string]uint64{},
 		maxSteps: e.maxSteps, maxDecisions: e.maxDecisions,
 		globals: map[*ssa.Global]*Value{}, gmemo: map[any]any{},
